@@ -99,3 +99,13 @@ def containers(case):
                                 expected=(complex(arr[idx].z1), complex(arr[idx].z2))))
                 break
     return dict(reproduced=bool(bad), failing=bad[:3], statement='__array_wrap__ keeps every number at its index for every memory layout')
+
+
+@reg('C12.defstep')
+def defstep(case):
+    import numdifftools as nd
+    from ndvc.concrete import multicomplex_default_step_cases
+    res = multicomplex_default_step_cases(nd)
+    want = case.get('name')
+    bad = [dict(case=k, **(v[1] or {})) for k, v in sorted(res.items()) if not v[0] and (want is None or k == want)]
+    return dict(reproduced=bool(bad), failing=bad[:4], statement='Derivative(f, method="multicomplex", n) with default steps == analytic derivative (rtol 1e-8)')
